@@ -7,7 +7,8 @@ Characters are their codes (`Nat`); a byte string is a `List Nat`.  Constants, t
 space guards, printf formats, the order of the pieces of a log line, the macro gates, the
 SI/IEC branch tables and the calendar arithmetic come from `Generated/LogStream.lean`
 (re-extracted from /repo on every run); the two digit loops, the buffer, the printf
-interpreter for `%d`, the per-thread time cache and the floating-point arithmetic of
+interpreter for `%d`, the per-thread time cache, the per-thread tid cache (its guards, initial
+values, the statements of `Impl::Impl` and of the thread start-up code are generated) and the floating-point arithmetic of
 `formatSI`/`formatIEC` (exact, over `Nat`) are written here.
 -/
 namespace MuduoVerif.LogStream
@@ -201,6 +202,62 @@ def cacheStep (z : Zone) (c : TimeCache) (us : Int) : TimeCache :=
 def usText (z : Zone) (us : Int) : Bytes :=
   sprintf (parseFmt (if z.isSome then usFormatZone else usFormatUtc)) [splitMicros us]
 
+/-! ### the thread id cache (`CurrentThread::t_cachedTid`, `t_tidString`, `t_tidStringLength`) -/
+
+/-- the three thread-local variables of one thread -/
+structure TidState where
+  cached : Int      -- `t_cachedTid` (0: nothing cached yet)
+  str : Bytes       -- the text in `t_tidString` (zero bytes behind it: zero-filled thread-local storage)
+  len : Int         -- `t_tidStringLength`
+deriving Repr, DecidableEq
+
+/-- a thread that has not run any muduo code yet: the initialisers of CurrentThread.cc -/
+def TidState.fresh : TidState := { cached := tidInitCached, str := [], len := tidInitLength }
+
+/-- what `snprintf(t_tidString, sizeof t_tidString, "%5d ", tid)` stores -/
+def tidText (tid : Int) : Bytes := sprintf (parseFmt tidFormat) [tid]
+
+/-- `CurrentThread::cacheTid()`; `gettid` is what the system call returns on the calling thread -/
+def cacheTid (gettid : Int) (t : TidState) : TidState :=
+  if cacheTidGuard t.cached then
+    { cached := gettid, str := tidText gettid, len := cacheTidLength (tidText gettid).length }
+  else t
+
+/-- `CurrentThread::tid()` (for its effect on the cache) -/
+def tidCall (gettid : Int) (t : TidState) : TidState :=
+  if tidCacheEmpty t.cached then cacheTid gettid t else t
+
+/-- the cache of a thread that has cached its own id -/
+def TidState.of (tid : Int) : TidState := { cached := tid, str := tidText tid, len := (tidText tid).length }
+
+def tidStep (gettid : Int) (t : TidState) : TidStep → TidState
+  | .reset => { t with cached := 0 }
+  | .callTid => tidCall gettid t
+
+def tidRun (gettid : Int) (t : TidState) (steps : List TidStep) : TidState := steps.foldl (tidStep gettid) t
+
+/-- how the emitting thread came to be -/
+inductive ThreadKind
+  | main                      -- the thread that ran the static initialisers
+  | muduoThread               -- started by `muduo::Thread`
+  | foreign (calledTid : Bool)  -- created with `pthread_create` / `std::thread`; `calledTid`: it has called `CurrentThread::tid()` itself
+  | forkChild (parentTid : Int) (parent : TidState)  -- the thread that returned from `fork()` in the child
+deriving Repr, DecidableEq
+
+/-- the tid cache of a thread of that kind whose kernel id is `tid`, when it reaches its first log statement -/
+def entryState (tid : Int) : ThreadKind → TidState
+  | .main => tidRun tid TidState.fresh staticInitSteps
+  | .muduoThread => tidRun tid TidState.fresh threadStartSteps
+  | .foreign called => if called then tidCall tid TidState.fresh else TidState.fresh
+  | .forkChild _ parent => if atforkChildRegistered then tidRun tid parent afterForkSteps else parent
+
+/-- `T(tidString(), tidStringLength())`: `tidStringLength()` bytes starting at `t_tidString` -/
+def tidField (t : TidState) : Bytes := readN t.len.toNat t.str
+
+/-- the `assert(strlen(str) == len_)` of the helper class `T` for that insertion (builds without NDEBUG) -/
+def tidAssert (t : TidState) : Prop := ((cstr t.str).length : Int) = t.len
+instance : Decidable (tidAssert t) := by unfold tidAssert; infer_instance
+
 /-! ### one log line (`Logger::Impl::Impl`, the `Logger` constructors, `finish`) -/
 
 /-- `SourceFile`: what follows the last `/` -/
@@ -213,7 +270,7 @@ structure LogReq where
   func : Option Bytes    -- `__func__` (TRACE / DEBUG constructor)
   file : Bytes           -- `__FILE__`
   line : Int
-  tid : Int              -- what `gettid` returned on this thread (environment input)
+  tid : Int              -- what `gettid` returns on this thread (environment input)
   us : Int               -- `Timestamp::now()` (environment input)
   msg : List Item        -- what the caller streams into the Logger
 deriving Repr, DecidableEq
@@ -221,6 +278,7 @@ deriving Repr, DecidableEq
 structure LineEnv where
   timeText : Bytes
   usText : Bytes
+  tid : TidState         -- the thread's tid cache at this point of `Impl::Impl`
   req : LogReq
 
 def pieceItem (e : LineEnv) : Piece → Item
@@ -231,24 +289,56 @@ def pieceItem (e : LineEnv) : Piece → Item
   | .errtext => .str (cstr e.req.errText)
   | .errno => .int e.req.errno
   | .func => .str (cstr (e.req.func.getD []))
-  | .tid => .str (sprintf (parseFmt tidFormat) [e.req.tid])
+  | .tid => .str (tidField e.tid)
   | .level n => .str (readN n (logLevelName.getD e.req.level []))
   | .time n => .str (readN n e.timeText)
   | .us n => .str (readN n e.usText)
 
-/-- the pieces in front of the caller's message -/
-def prefixPieces (z : Zone) (r : LogReq) : List Piece :=
-  (if z.isSome then timePiecesZone else timePiecesUtc) ++ headPieces
-    ++ (if errnoShown r.errno then errnoPieces else [])
-    ++ (if r.func.isSome then funcPieces else [])
+/-- one statement of `Impl::Impl`: the tid cache afterwards and what it inserted -/
+def implStep (z : Zone) (e : LineEnv) : ImplStep → LineEnv × List Item
+  | .formatTime => (e, (if z.isSome then timePiecesZone else timePiecesUtc).map (pieceItem e))
+  | .callTid => ({ e with tid := tidCall e.req.tid e.tid }, [])
+  | .ins ps => (e, ps.map (pieceItem e))
+  | .errnoIf ps => (e, if errnoShown e.req.errno then ps.map (pieceItem e) else [])
 
-def lineItems (z : Zone) (c : TimeCache) (r : LogReq) : List Item :=
-  let e : LineEnv := { timeText := (cacheStep z c r.us).text, usText := usText z r.us, req := r }
-  (prefixPieces z r).map (pieceItem e) ++ r.msg ++ finishPieces.map (pieceItem e)
+/-- the statements of `Impl::Impl` in order -/
+def implRun (z : Zone) : LineEnv → List ImplStep → LineEnv × List Item
+  | e, [] => (e, [])
+  | e, s :: rest => ((implRun z (implStep z e s).1 rest).1, (implStep z e s).2 ++ (implRun z (implStep z e s).1 rest).2)
 
-/-- what `~Logger` hands to `g_output`, and the thread's cache afterwards -/
-def logLine (z : Zone) (c : TimeCache) (r : LogReq) : TimeCache × Bytes :=
-  (cacheStep z c r.us, (run (mkBuf kSmallBuffer) (lineItems z c r)).data)
+/-- the `assert` of `T` holds at every insertion of the tid string (asserts-on builds abort otherwise) -/
+def implAsserts (z : Zone) : LineEnv → List ImplStep → Bool
+  | _, [] => true
+  | e, s :: rest =>
+    (match s with
+     | .ins ps => decide (Piece.tid ∈ ps → tidAssert e.tid)
+     | _ => true) && implAsserts z (implStep z e s).1 rest
+
+def lineEnv (z : Zone) (c : TimeCache) (t : TidState) (r : LogReq) : LineEnv :=
+  { timeText := (cacheStep z c r.us).text, usText := usText z r.us, tid := t, req := r }
+
+/-- everything a Logger whose `Impl::Impl` consists of `steps` inserts: those statements, the `func` constructor's
+body, the caller's message, `finish` -/
+def lineItemsOf (steps : List ImplStep) (z : Zone) (c : TimeCache) (t : TidState) (r : LogReq) : List Item :=
+  let res := implRun z (lineEnv z c t r) steps
+  res.2 ++ (if r.func.isSome then funcPieces else []).map (pieceItem res.1) ++ r.msg ++ finishPieces.map (pieceItem res.1)
+
+structure LineResult where
+  cache : TimeCache      -- the thread's time cache afterwards
+  tid : TidState         -- the thread's tid cache afterwards
+  asserts : Bool         -- no `assert` of `T` failed (otherwise a build without NDEBUG aborts before any output)
+  text : Bytes           -- what `~Logger` hands to `g_output`
+deriving Repr, DecidableEq
+
+def logLineOf (steps : List ImplStep) (z : Zone) (c : TimeCache) (t : TidState) (r : LogReq) : LineResult :=
+  { cache := cacheStep z c r.us,
+    tid := (implRun z (lineEnv z c t r) steps).1.tid,
+    asserts := implAsserts z (lineEnv z c t r) steps,
+    text := (run (mkBuf kSmallBuffer) (lineItemsOf steps z c t r)).data }
+
+/-- the code that exists: the statements of `Impl::Impl` as extracted -/
+def lineItems := lineItemsOf implSteps
+def logLine := logLineOf implSteps
 
 /-- a `LOG_*` macro statement produces a line iff -/
 def emits (m : Nat) (configured : Nat) : Prop := macroGate m configured
@@ -264,16 +354,18 @@ deriving Repr, DecidableEq
 structure LogState where
   zone : Zone
   cache : TimeCache
+  tid : TidState
   filledZone : Zone      -- ghost: the zone that was configured when `cache.text` was written
 deriving Repr, DecidableEq
 
-def LogState.init : LogState := { zone := none, cache := TimeCache.fresh, filledZone := none }
+/-- a thread (of any kind) before its first log statement -/
+def LogState.init (t : TidState) : LogState := { zone := none, cache := TimeCache.fresh, tid := t, filledZone := none }
 
 def logStep (s : LogState) : LogOp → LogState × List Bytes
   | .log r =>
     let miss : Bool := decide (cacheMiss (splitSeconds r.us) s.cache.lastSecond)
-    ({ s with cache := (logLine s.zone s.cache r).1, filledZone := if miss then s.zone else s.filledZone },
-     [(logLine s.zone s.cache r).2])
+    let res := logLine s.zone s.cache s.tid r
+    ({ s with cache := res.cache, tid := res.tid, filledZone := if miss then s.zone else s.filledZone }, [res.text])
   | .setZone z => ({ s with zone := z }, [])
 
 def logRun : LogState → List LogOp → List Bytes
